@@ -528,7 +528,7 @@ func genDecimalForInt(r *gen.RNG) ref.Bits {
 func runC10(c *Ctx) {
 	c.Parallel("to-int", ref.NearestEven, func(sh *mon.Shard, r *gen.RNG) {
 		j := &intJudge{ctx: c, sh: sh}
-		n := c.N(15000, 300000)
+		n := c.N(60000, 600000)
 		for i := 0; i < n; i++ {
 			j.judgeToInt(genDecimalForInt(r), "")
 			if i%4 == 0 {
@@ -546,7 +546,7 @@ func runC10(c *Ctx) {
 	for def := ref.Mode(0); def < ref.NumModes; def++ {
 		c.Parallel("from-big", def, func(sh *mon.Shard, r *gen.RNG) {
 			j := &intJudge{ctx: c, sh: sh}
-			n := c.N(1500, 25000)
+			n := c.N(5000, 50000)
 			if def != ref.NearestEven {
 				n /= 3
 			}
